@@ -8,6 +8,9 @@
 //!       <id> <n> blobs <folder>/<slot|?>/<name8>:<hash ok 0|1>:<decrypts to cid|ERR> ...      (what is on disk)
 //!       <id> <n> reduced <folder>/<slot|?>/<name8> ...                                       (FileReducer over the file log)
 //!      !<id> <n> events <C|M|D>:<folder>/<slot>/<name8>[>folder/slot] ...                       (the file log, decoded)
+//! (c) "c17 <id> mode=net ops=<op>|..."   two real network accounts (devices of one account) and the real server on
+//!     loopback, file transfers running: the ops of (a) on device 0, plus s1 = device 1 syncs; after every op, once
+//!     the transfers have settled:   <id> <n> net <D0|SRV|D1> disk=<blobs on disk> canon=<replay of that replica's file log>
 //! (b) "c17 <id> mode=upload sbe=fs|db bodies=<kind,kind,..>"   the real HTTP server: PUT of a blob
 //!     under the name sha256(correct) with body kind in correct|altered|truncated|empty|extended|other:
 //!       <id> up <k> body=<kind> status=<code> final=<absent|ok|BADHASH> leftovers=<names of *.upload files>
@@ -51,6 +54,10 @@ pub fn run(text: &str, cases_path: &str, out: &mut impl Write) {
         out.flush().unwrap();
         if kv(&toks, "mode") == Some("upload") {
             crate::c11::upload_case(&id, &toks, &base, out);
+            continue;
+        }
+        if kv(&toks, "mode") == Some("net") {
+            net_case(&rt, &id, &toks, &base, out);
             continue;
         }
         let cdb = kv(&toks, "cbe") == Some("db");
@@ -216,4 +223,178 @@ pub fn run(text: &str, cases_path: &str, out: &mut impl Write) {
         });
         let _ = std::fs::remove_dir_all(base.join(&id));
     }
+}
+
+/// (c) two devices + server with the file transfer queues running
+fn net_case(rt: &tokio::runtime::Runtime, id: &str, toks: &[&str], base: &std::path::Path, out: &mut impl Write) {
+    use sos_protocol::AccountSync;
+    let ops: Vec<String> = kv(toks, "ops").unwrap_or("").split('|').filter(|s| !s.is_empty()).map(|s| s.to_string()).collect();
+    let home = std::env::current_dir().ok();
+    // sos_test_utils::setup puts its directories under <cwd>/../../target
+    let base: PathBuf = if base.is_absolute() { base.to_path_buf() } else { std::env::current_dir().unwrap().join(base) };
+    let base = base.as_path();
+    let cwd = base.join(id).join("x").join("y");
+    std::fs::create_dir_all(&cwd).unwrap();
+    let _ = std::env::set_current_dir(&cwd);
+    let mut lines: Vec<String> = vec![];
+    rt.block_on(async {
+        // a configuration loaded from a file, like the server binary does
+        let cfg_file = cwd.join("config.toml");
+        std::fs::write(&cfg_file, "[storage]\npath = \".\"\n").unwrap();
+        let Ok(config) = sos_server::ServerConfig::load(&cfg_file).await else {
+            lines.push(format!("{id} setup-failed config"));
+            return;
+        };
+        std::env::remove_var("SOS_TEST_SERVER_DB");
+        let server = match tokio::time::timeout(std::time::Duration::from_secs(30), sos_test_utils::spawn_with_config(id, None, None, Some(config))).await {
+            Ok(Ok(s)) => s,
+            other => {
+                lines.push(format!("{id} setup-failed spawn {:?}", other.map(|r| r.map(|_| ()).map_err(|e| format!("{e:?}")))));
+                return;
+            }
+        };
+        let Ok(mut up) = sos_test_utils::simulate_device(id, 2, Some(&server)).await else {
+            lines.push(format!("{id} setup-failed device0"));
+            return;
+        };
+        let Ok(mut down) = up.connect(1, None).await else {
+            lines.push(format!("{id} setup-failed device1"));
+            return;
+        };
+        let account_id = *up.owner.account_id();
+        let server_paths = server.paths(&account_id);
+        let default = up.default_folder_id;
+        let mut folders: HashMap<String, VaultId> = HashMap::new();
+        folders.insert("0".into(), default);
+        let mut slots: HashMap<String, (SecretId, VaultId, String)> = HashMap::new();
+        let tmp = cwd.join("inputs");
+        std::fs::create_dir_all(&tmp).unwrap();
+        let short = |e: &dyn std::fmt::Debug| format!("err:{}", format!("{e:?}").chars().filter(|c| c.is_ascii_alphanumeric()).take(40).collect::<String>());
+        for (n, op) in ops.iter().enumerate() {
+            let n = n + 1;
+            let parts: Vec<&str> = op.split(':').collect();
+            let a = &mut up.owner;
+            let res: String = match parts[0] {
+                "fc" => {
+                    let (cid, folder) = match parts.get(2).unwrap_or(&"x").split_once('@') {
+                        Some((c, f)) => (c.to_string(), f.to_string()),
+                        None => (parts.get(2).unwrap_or(&"x").to_string(), "0".to_string()),
+                    };
+                    match folders.get(&folder).copied() {
+                        _ if slots.contains_key(parts[1]) => "slotbusy".into(),
+                        None => "nofolder".into(),
+                        Some(fid) => {
+                            let p: PathBuf = tmp.join(format!("in-{n}.txt"));
+                            std::fs::write(&p, content(&cid)).unwrap();
+                            match Secret::try_from(p.clone()) {
+                                Ok(secret) => {
+                                    let meta = SecretMeta::new(format!("F{}", parts[1]), secret.kind());
+                                    match a.create_secret(meta, secret, AccessOptions { folder: Some(fid), ..Default::default() }).await {
+                                        Ok(r) => {
+                                            slots.insert(parts[1].to_string(), (r.id, fid, cid));
+                                            "ok".into()
+                                        }
+                                        Err(e) => short(&e),
+                                    }
+                                }
+                                Err(e) => short(&e),
+                            }
+                        }
+                    }
+                }
+                "fu" => match slots.get(parts[1]).cloned() {
+                    None => "noslot".into(),
+                    Some((sid, fid, _)) => {
+                        let cid = parts.get(2).unwrap_or(&"y").to_string();
+                        let p: PathBuf = tmp.join(format!("in-{n}.txt"));
+                        std::fs::write(&p, content(&cid)).unwrap();
+                        let meta = SecretMeta::new(format!("F{}", parts[1]), sos_vault::secret::SecretType::File);
+                        match a.update_file(&sid, meta, &p, AccessOptions { folder: Some(fid), ..Default::default() }).await {
+                            Ok(_) => {
+                                slots.insert(parts[1].to_string(), (sid, fid, cid));
+                                "ok".into()
+                            }
+                            Err(e) => short(&e),
+                        }
+                    }
+                },
+                "fm" => match (slots.get(parts[1]).cloned(), folders.get(*parts.get(2).unwrap_or(&"0")).copied()) {
+                    (Some((sid, from, cid)), Some(to)) if from != to => match a.move_secret(&sid, &from, &to, Default::default()).await {
+                        Ok(mv) => {
+                            slots.insert(parts[1].to_string(), (mv.id, to, cid));
+                            "ok".into()
+                        }
+                        Err(e) => short(&e),
+                    },
+                    _ => "skip".into(),
+                },
+                "fx" => match slots.remove(parts[1]) {
+                    None => "noslot".into(),
+                    Some((sid, fid, _)) => match a.delete_secret(&sid, AccessOptions { folder: Some(fid), ..Default::default() }).await {
+                        Ok(_) => "ok".into(),
+                        Err(e) => short(&e),
+                    },
+                },
+                "ff" => match a.create_folder(NewFolderOptions::new(format!("folder{}", parts[1]))).await {
+                    Ok(f) => {
+                        folders.insert(parts[1].to_string(), *f.folder.id());
+                        "ok".into()
+                    }
+                    Err(e) => short(&e),
+                },
+                "fk" => match folders.remove(parts[1]) {
+                    None => "nofolder".into(),
+                    Some(fid) => {
+                        slots.retain(|_, v| v.1 != fid);
+                        match a.delete_folder(&fid).await {
+                            Ok(_) => "ok".into(),
+                            Err(e) => short(&e),
+                        }
+                    }
+                },
+                "s0" => if up.owner.sync().await.first_error().is_none() { "ok".into() } else { "err:sync".into() },
+                "s1" => if down.owner.sync().await.first_error().is_none() { "ok".into() } else { "err:sync".into() },
+                _ => "badop".into(),
+            };
+            lines.push(format!("{id} {n} op={op} res={res}"));
+            let fname = |f: &VaultId| folders.iter().find(|(_, v)| *v == f).map(|(k, _)| format!("f{k}")).unwrap_or_else(|| format!("f?{}", &f.to_string()[..4]));
+            let sname = |s: &SecretId| slots.iter().find(|(_, v)| &v.0 == s).map(|(k, _)| k.clone()).unwrap_or_else(|| format!("?{}", &s.to_string()[..4]));
+            let show = |e: &ExternalFile| format!("{}/{}/{}", fname(e.vault_id()), sname(e.secret_id()), &e.file_name().to_string()[..8]);
+            let listing = |set: Vec<String>| { let mut v = set; v.sort(); v.join(",") };
+            // let the transfer queues settle: the three listings unchanged for 1.2 s (at most 12 s)
+            let start = std::time::Instant::now();
+            let mut last: Option<(String, String, String)> = None;
+            let mut stable_since = std::time::Instant::now();
+            loop {
+                let d0 = listing(list_external_files(&up.owner.paths()).await.unwrap_or_default().iter().map(|e| show(e)).collect());
+                let sv = listing(list_external_files(&server_paths).await.unwrap_or_default().iter().map(|e| show(e)).collect());
+                let d1 = listing(list_external_files(&down.owner.paths()).await.unwrap_or_default().iter().map(|e| show(e)).collect());
+                let cur = (d0, sv, d1);
+                if last.as_ref() != Some(&cur) {
+                    last = Some(cur);
+                    stable_since = std::time::Instant::now();
+                }
+                if (stable_since.elapsed().as_millis() > 1200 && start.elapsed().as_millis() > 1500) || start.elapsed().as_secs() > 12 {
+                    break;
+                }
+                tokio::time::sleep(std::time::Duration::from_millis(150)).await;
+            }
+            let (d0, sv, d1) = last.unwrap();
+            let c0 = listing(up.owner.canonical_files().await.map(|s| s.iter().map(|e| show(e)).collect()).unwrap_or_else(|_| vec!["ERR".into()]));
+            let c1 = listing(down.owner.canonical_files().await.map(|s| s.iter().map(|e| show(e)).collect()).unwrap_or_else(|_| vec!["ERR".into()]));
+            lines.push(format!("{id} {n} net D0 disk={d0} canon={c0}"));
+            lines.push(format!("{id} {n} net SRV disk={sv} canon={c0}"));
+            lines.push(format!("{id} {n} net D1 disk={d1} canon={c1}"));
+        }
+        let _ = down.owner.sign_out().await;
+        let _ = up.owner.sign_out().await;
+        drop(server);
+    });
+    for l in lines {
+        writeln!(out, "{l}").unwrap();
+    }
+    if let Some(h) = home {
+        let _ = std::env::set_current_dir(h);
+    }
+    let _ = std::fs::remove_dir_all(base.join(id));
 }
